@@ -111,6 +111,26 @@ def run(ctx):
     n_salsa = len(set(i.get("self_adt") for i in F.impls if i.get("trait", "").endswith("salsa_value::SalsaValue")))
     ctx.ob("R13.1", "salsa-values", n_salsa >= 1000, "%d SalsaValue types; all but the hand-written impls above use derived equality" % n_salsa, "")
 
+    # ---------------- R13.6 equality of the ordered containers is order-sensitive
+    # (consumers iterate them, so two values that differ only in order are distinguishable; IndexMap's own
+    # `==` ignores order and must not be what these impls delegate to)
+    for cont in ("cairo_lang_utils::ordered_hash_map::OrderedHashMap", "cairo_lang_utils::ordered_hash_set::OrderedHashSet"):
+        eqs = [f for f in F.fns.values() if f.d.get("self_adt") == cont and f.d.get("trait") == "core::cmp::PartialEq" and f.name == "eq"]
+        if not eqs:
+            derived = any(i.get("self_adt") == cont and i.get("trait") == "core::cmp::PartialEq" and i["derived"] for i in F.impls)
+            ctx.ob("R13.6", "ordered-eq:" + cont, False, "no hand-written PartialEq found (%s): indexmap equality ignores order" % (
+                "derived" if derived else "missing"), "")
+            continue
+        e = eqs[0]
+        calls = [c for g in F.with_closures(e) for c in g.calls()]
+        delegates = [c for c in calls if c.name() in ("eq", "ne") and ("indexmap::" in c.path or "IndexMap" in c.path or "IndexSet" in c.path)]
+        iters = [c for c in calls if c.name() in ("iter", "into_iter")]
+        pairwise = [c for c in calls if c.name() in ("zip_eq", "zip", "eq", "all", "eq_by") and "indexmap" not in c.path]
+        ok = not delegates and len(iters) >= 2 and bool(pairwise)
+        ctx.ob("R13.6", "ordered-eq:" + cont, ok,
+               "equality compares the two iteration sequences element by element" if ok else
+               "equality %s" % ("delegates to indexmap's order-insensitive `==`" if delegates else "does not compare the iteration sequences"), e.where())
+
     # ---------------- R13.2 untracked reads
     cg = CallGraph(F)
     roots = [p for p in F.fns if p.endswith("as salsa::function::Configuration>::execute::inner_")]
